@@ -80,6 +80,29 @@ C01Scripts ==
   UNION { { Setup(ka[1], ka[2], p, rt) \o <<v>> : v \in Verifies(ka[1], ka[2]) }
           : ka \in Pairs, p \in Providers, rt \in Routes }
 
-MCSpec == ISpecWith(C01Scripts)
+\* a callback that selects ANOTHER key for one token: afterwards (callback removed, or selecting nothing) the checker's
+\* own key decides again - a token signed by the other key is refused
+CbPairs == { <<OctKey(32, "a", NONE, NONE), OctKey(32, "b", NONE, NONE), "HS256">>,
+             <<AsymKey("rsa2048a", 0, NONE, NONE), AsymKey("rsa2048b", 0, NONE, NONE), "RS256">>,
+             <<AsymKey("p256a", 0, NONE, NONE), AsymKey("p256b", 0, NONE, NONE), "ES256">>,
+             <<AsymKey("ed25519a", 0, NONE, NONE), AsymKey("ed25519b", 0, NONE, NONE), "EdDSA">> }
+CallbackScripts ==
+  { << OpsOp(p), LoadOp(<<t[1], t[2]>>), CNewOp, CSetKeyOp(t[3], 0),
+       ForgeOp(0, TokWith(t[3], S("valid", t[3], t[1]), "none", 1)), ForgeOp(1, TokWith(t[3], S("valid", t[3], t[2]), "none", 1)),
+       VerifyOp(SlotTok(0)), VerifyOp(SlotTok(1)),
+       CSetCbOp(<<CbKey(1)>>), VerifyOp(SlotTok(1)), VerifyOp(SlotTok(0)),
+       after, VerifyOp(SlotTok(1)), VerifyOp(SlotTok(0)) >> :
+      t \in CbPairs, p \in Providers, after \in {CSetCbOff, CSetCbOp(<<>>), CSetCbOp(<<CbRet(0)>>)} }
+\* a configuration call that is REFUSED (an algorithm of another family, an algorithm without a key, a second key
+\* whose alg attribute contradicts) leaves the checker with the key it had: unsigned and stripped tokens stay refused,
+\* the genuine one stays accepted, another key's token stays refused
+WrongAlg(a) == IF a \in HSAlgs THEN "RS256" ELSE "HS256"
+RefusedScripts ==
+  { << OpsOp(p), LoadOp(<<t[1], [t[2] EXCEPT !.alg = WrongAlg(t[3])]>>), CNewOp, CSetKeyOp(t[3], 0), bad,
+       VerifyOp(TokWith("none", EmptySig, "none", 1)), VerifyOp(TokWith(t[3], EmptySig, "none", 1)),
+       VerifyOp(TokWith(t[3], S("valid", t[3], t[1]), "none", 1)), VerifyOp(TokWith(t[3], S("valid", t[3], t[2]), "none", 1)) >> :
+      t \in CbPairs, p \in Providers,
+      bad \in { CSetKeyOp("RS256", 0), CSetKeyOp("HS256", 0), CSetKeyOp("HS256", -1), CSetKeyOp("ES256", 1), CSetKeyOp("EdDSA", 1), CSetKeyOp("INVAL", 0) } }
+MCSpec == ISpecFam(<<C01Scripts, CallbackScripts, RefusedScripts>>)
 \* non-vacuity: valid signatures are accepted by the reference
 =============================================================================
